@@ -10,6 +10,9 @@ pub enum Case {
     /// window word (N: holiday of the business calendar, B: holiday of the settlement calendar, S: neither)
     /// on top of periodic week masks for the business and the settlement calendar
     Word { w: String, bmask: u8, smask: Option<u8> },
+    /// a run of `r` consecutive business-calendar holidays starting `start` days after 2024-02-26 (Sat-Sun mask),
+    /// settlement calendar closed on the first `b` weekdays after the run
+    Run { r: i64, start: i64, b: i64 },
     /// named calendar; start dates from..=to (day numbers), day counts: all i8 or the reduced menu
     Named { name: String, from: i64, to: i64, all_counts: bool },
 }
@@ -226,7 +229,17 @@ pub fn check(case: &Case, idx: u64, acc: &mut Acc) {
         Case::Word { w, bmask, smask } => {
             let z0 = days_from_civil(2024, 2, 26); // Monday
             let (n, b) = super::c04::word_days(w, z0);
-            let bus = Cal::new(n.iter().map(|z| to_ndt(*z)).collect(), mask_vec(*bmask));
+            // holidays are handed over in date order, reversed, or interleaved (the order of supply must not matter)
+            let mut nn = n.clone();
+            match idx % 3 {
+                1 => nn.reverse(),
+                2 => {
+                    let (ev, od): (Vec<i64>, Vec<i64>) = (nn.iter().step_by(2).cloned().collect(), nn.iter().skip(1).step_by(2).cloned().collect());
+                    nn = od.into_iter().chain(ev).collect();
+                }
+                _ => {}
+            }
+            let bus = Cal::new(nn.iter().map(|z| to_ndt(*z)).collect(), mask_vec(*bmask));
             let (lo, hi) = (z0 - 1000, z0 + 1000);
             let ns = counts(true);
             let wl = w.len() as i64;
@@ -259,6 +272,41 @@ pub fn check(case: &Case, idx: u64, acc: &mut Acc) {
                 }
             }
             if idx % 211 == 0 {
+                acc.sample(|| serde_json::to_value(case).unwrap());
+            }
+        }
+        Case::Run { r, start, b } => {
+            let z0 = days_from_civil(2024, 2, 26) + start;
+            let order: Vec<i64> = match start % 3 {
+                0 => (0..*r).collect(),
+                1 => (0..*r).rev().collect(),
+                _ => (0..*r).map(|i| (i * 11 + 3) % *r).collect(),
+            };
+            let member = Cal::new(order.iter().map(|i| to_ndt(z0 + i)).collect(), vec![5, 6]);
+            if *b == 0 {
+                // the plain Cal on its own as well
+                let bmc = Bitmap::from_fn(z0 - 700, z0 + r + 700, |z| (weekday(z) < 5 && !(z >= z0 && z < z0 + r), true));
+                let ns = counts(true);
+                check_cal(&member, &bmc, z0 - 3, z0 + 1, &ns, false, "Cal/long-run", case, idx, acc);
+            }
+            let mut sh = vec![];
+            let mut z = z0 + r;
+            while (sh.len() as i64) < *b {
+                if weekday(z) < 5 {
+                    sh.push(z);
+                }
+                z += 1;
+            }
+            let u = UnionCal::new(vec![member], Some(vec![Cal::new(sh.iter().map(|z| to_ndt(*z)).collect(), vec![5, 6])]));
+            let (lo, hi) = (z0 - 700, z0 + r + 700);
+            let bm = Bitmap::from_fn(lo, hi, |z| {
+                let wk = weekday(z) < 5;
+                (wk && !(z >= z0 && z < z0 + r), wk && !sh.contains(&z))
+            });
+            let ns = counts(true);
+            check_cal(&u, &bm, z0 - 3, z0 + 2, &ns, true, "UnionCal/long-run", case, idx, acc);
+            check_cal(&u, &bm, z0 + r - 2, z0 + r + 3, &ns, false, "UnionCal/long-run", case, idx, acc);
+            if idx % 13 == 0 {
                 acc.sample(|| serde_json::to_value(case).unwrap());
             }
         }
@@ -298,6 +346,13 @@ pub fn cases(tier: Tier) -> Vec<Case> {
                     continue;
                 }
                 out.push(Case::Word { w: w.clone(), bmask: *bm, smask: *sm });
+            }
+        }
+    }
+    for r in [12i64, 35, 64] {
+        for start in 0..7 {
+            for b in [0i64, 3] {
+                out.push(Case::Run { r, start, b });
             }
         }
     }
@@ -346,7 +401,8 @@ pub fn run(ctx: &Ctx, replay_file: Option<String>) -> ! {
          window, on top of periodic week masks for the business calendar (none, Sat-Sun, Fri-Sat, Mon-Fri closed) and \
          the settlement calendar (absent, Sat-Sun, Sun+Mon, none); EVERY i8 day count, both settlement flags, every \
          start date of the window +-1: add_bus_days (value, error on a non-business start, inverse law), lag, \
-         add_days under all 5 modifiers, bus_date_range for every (start, end) pair. (2) named calendars: every date \
+         add_days under all 5 modifiers, bus_date_range for every (start, end) pair. (1b) long runs of 12, 35 and 64 consecutive closures at every weekday alignment, every i8 count from the days \
+         around both ends of the run. (2) named calendars: every date \
          of several years x every i8; every built-in calendar over every date 1970-2200 x a reduced count menu \
          (|n|<=10 and +-20,63,64,100,126,127,-128). Oracle: index arithmetic on the sorted list of the calendar's own \
          business days, then linear search for the first settleable day in the direction of n. Non-trivial: calls \
